@@ -1360,6 +1360,13 @@ func remapIndex(ctx context.Context, mp *mhprimary.MultihashPrimary, buckets Buc
 		_, err = os.Stat(doneName)
 		if !os.IsNotExist(err) {
 			log.Infow("index file already remapped", "file", fileName)
+			// The marker is created before the remapped copy replaces the
+			// original. If that rename did not happen, do it now.
+			if _, err = os.Stat(tmpName); err == nil {
+				if err = os.Rename(tmpName, fileName); err != nil {
+					return nil, fmt.Errorf("error renaming remapped file %s to %s: %w", tmpName, fileName, err)
+				}
+			}
 			indexCount += len(bucketPrefixes)
 			continue
 		}
